@@ -188,9 +188,10 @@ def check_func(src):
     if dinfo["exc"]:
         info["exc"] = dinfo["exc"]
     node_at = lambda p: _node_at(f, p)
-    warned = [p for p, u in visits if u and p is not None]
-    ok_paths = {tuple(map(tuple, p)) for p, u in visits if not u and p is not None}
-    all_visited = {tuple(map(tuple, p)) for p, u in visits if p is not None}
+    warned = [v[0] for v in visits if v[1] and v[0] is not None]
+    # a statement is given its flow when a flow rule ran for it (binary_op / constant / id), without warning
+    ok_paths = {tuple(map(tuple, v[0])) for v in visits if not v[1] and v[2] and v[0] is not None}
+    all_visited = {tuple(map(tuple, v[0])) for v in visits if v[0] is not None}
     sites = effect_sites(f.body, (("body", 0),))
     info["sites"] = len(sites)
     # 1. warnings
@@ -407,7 +408,7 @@ def run(ctx):
             if info["early_exit"]:
                 skipped["early_exit"] += 1
                 continue
-            if any(p is None for p, _ in vis):
+            if any(v[0] is None for v in vis):
                 mism.append(f"dispatch: _unsupported called outside any compute_relation call on {src!r}")
                 continue
             ditems.append((tree, vis, src))
@@ -419,7 +420,7 @@ def run(ctx):
             mism.append(f"dispatch: model's compute_relation call sequence differs on {len(bad[0])} of {len(ditems)} functions, e.g. {ditems[bad[0][0]][2]!r}")
         ncorr += len(ditems)
         stats["dispatch_cases"] = len(ditems)
-        stats["dispatch_cases_with_unsupported"] = sum(1 for _, v, _ in ditems if any(u for _, u in v))
+        stats["dispatch_cases_with_unsupported"] = sum(1 for _, v, _ in ditems if any(x[1] for x in v))
         stats["dispatch_skipped"] = skipped
         bad, errs = S.run_sharded("c05_b", [(t, b) for t, b, _ in bitems], bad_list_file, 1, per=100)
         mism += errs
